@@ -12,6 +12,7 @@ from ...utils.bitfun import sign_extend
 from .instructions import Andr, Orr, Xorr, Subr, Addi, Slli, Srli
 from .instructions import Lw, Sw, Blt, Bgt, Bge, Beq, Bne, Ble, Blr
 from .instructions import Bgtu, Bltu, Bgeu, Bleu
+from .instructions import sign_extend_reg, zero_extend_reg
 
 
 class RegisterSet(set):
@@ -788,8 +789,6 @@ def pattern_stri32_addi32(context, tree, c0, c1):
 
 
 @rvcisa.pattern("stm", "CJMPI32(reg, reg)", size=2)
-@rvcisa.pattern("stm", "CJMPI16(reg, reg)", size=2)
-@rvcisa.pattern("stm", "CJMPI8(reg, reg)", size=2)
 def pattern_cjmp(context, tree, c0, c1):
     op, yes_label, no_label = tree.value
     opnames = {"<": Blt, ">": Bgt, "==": Beq, "!=": Bne, ">=": Bge, "<=": Ble}
@@ -799,8 +798,6 @@ def pattern_cjmp(context, tree, c0, c1):
     context.emit(jmp_ins)
 
 
-@rvcisa.pattern("stm", "CJMPU8(reg, reg)", size=2)
-@rvcisa.pattern("stm", "CJMPU16(reg, reg)", size=2)
 @rvcisa.pattern("stm", "CJMPU32(reg, reg)", size=2)
 def pattern_cjmpu(context, tree, c0, c1):
     op, yes_label, no_label = tree.value
@@ -816,6 +813,36 @@ def pattern_cjmpu(context, tree, c0, c1):
     jmp_ins = CB(no_label.name, jumps=[no_label])
     context.emit(Bop(c0, c1, yes_label.name, jumps=[yes_label, jmp_ins]))
     context.emit(jmp_ins)
+
+
+# The high bits of a register with an 8 or 16 bit value are not defined,
+# extend the operands before the registers are compared:
+@rvcisa.pattern("stm", "CJMPI8(reg, reg)", size=10)
+def pattern_cjmpi8(context, tree, c0, c1):
+    a = sign_extend_reg(context, c0, 8)
+    b = sign_extend_reg(context, c1, 8)
+    pattern_cjmp(context, tree, a, b)
+
+
+@rvcisa.pattern("stm", "CJMPI16(reg, reg)", size=10)
+def pattern_cjmpi16(context, tree, c0, c1):
+    a = sign_extend_reg(context, c0, 16)
+    b = sign_extend_reg(context, c1, 16)
+    pattern_cjmp(context, tree, a, b)
+
+
+@rvcisa.pattern("stm", "CJMPU8(reg, reg)", size=10)
+def pattern_cjmpu8(context, tree, c0, c1):
+    a = zero_extend_reg(context, c0, 8)
+    b = zero_extend_reg(context, c1, 8)
+    pattern_cjmpu(context, tree, a, b)
+
+
+@rvcisa.pattern("stm", "CJMPU16(reg, reg)", size=10)
+def pattern_cjmpu16(context, tree, c0, c1):
+    a = zero_extend_reg(context, c0, 16)
+    b = zero_extend_reg(context, c1, 16)
+    pattern_cjmpu(context, tree, a, b)
 
 
 @rvcisa.pattern("stm", "JMP", size=2)
